@@ -317,3 +317,23 @@ def run(ctx):
         "samples": accA.samples[:3] + accB.samples[:2],
         "exhaustive": True,
     }
+
+
+def replay(ctx, data):
+    """Re-split the recorded line; True if the signature is gone."""
+    from breezy import cmdline
+    inp = data["first"]["input"]
+    acc = par.Acc()
+    vs = _u5.SmallestViolations(acc)
+    sq = inp["single_quotes_allowed"]
+    if "args" in inp:
+        got = _call_split(cmdline, inp["line"], sq, vs, inp, "split(quoted)")
+        if got is not None and got != list(inp["args"]):
+            kind = "lost-or-merged-args" if len(got) != len(inp["args"]) else "arg-changed"
+            vs.add("split(quote(args)):%s:%s" % (kind, "sq" if sq else "nosq"), dict(input=inp, got=got))
+        vs.flush()
+    else:
+        # a raw string: run the raw worker on exactly this string
+        a = _raw_work([(inp["line"], None)])
+        acc.violations.extend(a.violations)
+    return data["signature"] not in [s for s, _ in acc.violations]
